@@ -173,19 +173,33 @@ def run_extended(run, rng):
         kw = dict(inplace=inplace, filter_empty=fe)
         if default:
             kw["default"] = None
+        # front-end: public apply / named_apply, or _fast_apply sequential / threaded; sometimes with out=
+        front = rng.choice(["public", "public", "fast0", "fast2"])
+        out_td = None
+        if not inplace and rng.random() < 0.25:
+            out_td = TensorDict({}, batch_size=list(batch))
+            if kind == "lazy_stack":     # a lazy stack only accepts a lazy stack as out= (explicit ValueError otherwise)
+                out_td = lazy_stack([TensorDict({}, batch_size=list(batch[1:])) for _ in range(batch[0])], 0)
+            kw["out"] = out_td
+        case["front"] = front
+        case["out"] = out_td is not None
         try:
             with time_limit(240):
                 with torch.no_grad():
-                    if named:
-                        res = cont.named_apply(fn, *others, nested_keys=nested_keys, **kw)
+                    if front == "public":
+                        if named:
+                            res = cont.named_apply(fn, *others, nested_keys=nested_keys, **kw)
+                        else:
+                            res = cont.apply(fn, *others, **kw)
                     else:
-                        res = cont.apply(fn, *others, **kw)
+                        res = cont._fast_apply(fn, *others, named=named, nested_keys=nested_keys,
+                                               num_threads=0 if front == "fast0" else 2, **kw)
             err = None
         except TimeoutError as e:
             raise Infra(f"implementation call timed out: {e}")
         except Exception as e:  # noqa: BLE001
             res, err = None, e
-        fp = f"{kind}:{'named' if named else 'apply'}:{'inplace' if inplace else 'new'}"
+        fp = f"{kind}:{front}:{'named' if named else 'apply'}:{'inplace' if inplace else ('out' if out_td is not None else 'new')}"
         if want_err:
             run.oracle_ok(site) if err is not None else run.oracle_fail(site, case, "operand lacks an entry, no default, no exception", fp + ":no-raise")
             continue
@@ -198,7 +212,13 @@ def run_extended(run, rng):
             target = cont
         else:
             expect = want
-            target = res
+            target = out_td if (out_td is not None and res is not None) else res
+        if out_td is not None and res is not None and res is not out_td and kind != "lazy_stack":
+            # (a lazy stack returns a new stack wrapping the members of out: the results must then be IN out, checked below)
+            run.oracle_fail(site, case, "out= was given but another object was returned", fp + ":identity")
+            continue
+        if out_td is not None and res is not None:
+            target = out_td
         if target is None:
             if expect and not inplace:
                 run.oracle_fail(site, case, "returned None although the function produced values", fp + ":none-result")
